@@ -36,7 +36,7 @@ pub fn fn_random_u256() -> U256 {
     loop {
         rng.fill_bytes(&mut buf[..]);
         ret = u256_from_be_bytes(&buf);
-        if ret < SM9_N_MINUS_ONE && ret != [0, 0, 0, 0] {
+        if u256_cmp(&ret, &SM9_N_MINUS_ONE) < 0 && ret != [0, 0, 0, 0] {
             break;
         }
     }
